@@ -154,6 +154,7 @@ class _Asm:
             self.put(w)
             more = j + 1 < len(seq)
             if ch[0] == 'garbage':
+                self.inject_at = self.n
                 self.put(ch[1])
                 if more or ch[2]:
                     self.put(';')
@@ -185,6 +186,13 @@ def assemble(sheet, tight=False, inject=None):
     a = _Asm(tight, inject)
     nodes = a.rules(sheet, ())
     return ''.join(a.buf), nodes
+
+
+def assemble_at(sheet, tight=False, inject=None):
+    """-> (text, offset of the injected garbage declaration in it)"""
+    a = _Asm(tight, inject)
+    a.rules(sheet, ())
+    return ''.join(a.buf), getattr(a, 'inject_at', None)
 
 
 def containers(sheet):
@@ -612,7 +620,7 @@ def _try(res, placement, garbage, mode, cls, tight=False):
             res['kept_samples'].setdefault(k, text[:120])
     elif r:
         _fail(res, r[0], '%s | garbage %r at %s[%d] | damaged %r | %s' % (label, garbage, list(path), index, text[:300], r[1]), cls,
-              {'mode': mode, 'host': label, 'context': context_of(sheet, path), 'as_if_without_later_imports': r[0] != CL_CRASH and mode == 'rule' and _as_if_without_later_imports(sheet, path, index, r[2], tight), 'after': [r[0] for r in sheet[index:]] if not path else None, 'garbage': garbage, 'path': list(path), 'index': index, 'semi': semi, 'text': text, 'original': otext})
+              {'mode': mode, 'host': label, 'context': context_of(sheet, path), 'margin_model': _margin_model(sheet, path, index, garbage, semi, tight, r) if mode == 'decl' and context_of(sheet, path).endswith('margin') else None, 'as_if_without_later_imports': r[0] != CL_CRASH and mode == 'rule' and _as_if_without_later_imports(sheet, path, index, r[2], tight), 'after': [r[0] for r in sheet[index:]] if not path else None, 'garbage': garbage, 'path': list(path), 'index': index, 'semi': semi, 'text': text, 'original': otext})
 
 
 def _w_decl_garbage(args):
@@ -869,7 +877,10 @@ def _w_trunc(args):
 
 # ------------------------------------------------------------------------------------------------------------------ known classes
 # (id, predicate on the failure record).  A failure is attributed to a recorded finding only if its input is in the finding's class; the class is a
-# predicate on the INPUT (garbage shape / cut position), so a different failure of the same clause is still reported.
+# predicate on the INPUT (garbage shape / cut position), so a different failure of the same clause is still reported.  The two margin box classes are
+# sharper: they go by what the unchanged MarginRule grammar does (margin_box_scan) and, for the at-keyword one, by the exact SYMPTOM (_margin_model:
+# damaged DOM == undamaged DOM with the box's declarations re-read from the body without the at-rule chunks) - an at-rule WITH A BLOCK that is no longer
+# consumed as one construct, or any other loss in a margin box, is a violation.
 
 def _garbage_tokens(rec):
     """the garbage cut into (kind, text, depth before the token) - a light tokenizer of this module's own garbage texts"""
@@ -912,19 +923,106 @@ MARGIN_NAMES = ('@top-left-corner', '@top-left', '@top-center', '@top-right', '@
                 '@bottom-right-corner', '@left-top', '@left-middle', '@left-bottom', '@right-top', '@right-middle', '@right-bottom')
 
 
+_TOK = _re.compile(r'"(?:[^"\\]|\\.)*"|\'(?:[^\'\\]|\\.)*\'|url\([^)]*\)|/\*.*?\*/|@?(?:[-\w]|\\.)+\(?|\S', _re.S)
+
+
+_OWN_TOKEN_ATKEYWORDS = ('@import', '@page', '@media', '@font-face', '@namespace', '@charset')   # tokens of their own type (IMPORT_SYM ...), not ATKEYWORD
+
+
+def margin_box_scan(text, start):
+    """what the UNCHANGED MarginRule grammar does with the body of a margin box from offset start (a declaration boundary) on - the model behind the two
+    recorded margin box findings, written from their description, not from the code: (i) an ATKEYWORD token ANYWHERE (every at-keyword but the six that
+    are tokens of their own) starts an 'unknown at-rule' that runs through the next ';' or '}' token whatever the nesting (C04-margin-box-atkeyword);
+    (ii) the first '}' outside such a chunk ends the box (C04-margin-box-nested-block).
+    -> {'chunks': [(start, end)] the at-rule chunks, 'unterminated': a chunk ends with the '}' that really closes the box (brace counting),
+        'early_end': the box ends, by (ii), before the '}' that really closes it, 'end': offset of the '}' at which the scan stopped}"""
+    chunks = []
+    depth = 0
+    in_chunk = None
+    for m in _TOK.finditer(text, start):
+        t = m.group(0)
+        closes_box = t == '}' and depth == 0
+        if t == '{':
+            depth += 1
+        elif t == '}':
+            depth -= 1
+        if in_chunk is not None:
+            if t in (';', '}'):
+                chunks.append((in_chunk, m.end()))
+                in_chunk = None
+                if closes_box:
+                    return {'chunks': chunks, 'unterminated': True, 'early_end': False, 'end': m.start()}
+            continue
+        if t.startswith('@') and t.lower() not in _OWN_TOKEN_ATKEYWORDS:
+            in_chunk = m.start()
+        elif t == '}':
+            return {'chunks': chunks, 'unterminated': False, 'early_end': not closes_box, 'end': m.start()}
+    return {'chunks': chunks, 'unterminated': in_chunk is not None, 'early_end': False, 'end': len(text)}
+
+
+def _replace_margin_items(p, sheet, path, items):
+    """the sheet projection p with the declaration block of the margin box at path (container path of the abstract sheet) replaced by items"""
+    def in_rule(r, a, path):
+        if a[0] == 'media':
+            i = path[0]
+            return ('media', r[1], r[2][:i] + (in_rule(r[2][i], a[2][i], path[1:]),) + r[2][i + 1:])
+        if a[0] == 'page' and len(path) == 1:
+            j = path[0] - len(a[2])
+            return ('page', r[1], r[2], r[3][:j] + (('margin', r[3][j][1], items),) + r[3][j + 1:])
+        raise ValueError(a[0])
+    i = path[0]
+    return p[:i] + (in_rule(p[i], sheet[i], path[1:]),) + p[i + 1:]
+
+
+def _margin_model(sheet, path, index, garbage, semi, tight, r):
+    """for a failure of a malformed declaration inside a margin box: the scan above plus 'at_asif' - the damaged DOM is EXACTLY the undamaged DOM with the
+    declarations of that margin box replaced by what a declaration block makes of the body of the box with the at-rule chunks cut out (the symptom of
+    C04-margin-box-atkeyword: what is left of the declaration merges with what follows the chunk)"""
+    text, at = assemble_at(sheet, tight, inject=(path, index, garbage, semi))
+    if at is None:
+        return None
+    sc = margin_box_scan(text, at)
+    out = {'unterminated': sc['unterminated'], 'early_end': sc['early_end'], 'chunks': len(sc['chunks']), 'at_asif': False}
+    if sc['chunks'] and not sc['unterminated'] and not sc['early_end'] and r[0] != CL_CRASH and len(r) > 2:
+        body = text[text.rfind('{', 0, at) + 1:sc['end']]
+        off = text.rfind('{', 0, at) + 1
+        for a, b in reversed(sc['chunks']):
+            body = body[:a - off] + ' ' + body[b - off:]
+        out['asif_body'] = body
+        try:
+            import cssutils
+            cssutils.log.setLevel(logging.FATAL)
+            cssutils.log.raiseExceptions = False   # as inside parseString
+            try:
+                with gen.lenient():
+                    items = gen.project_style(cssutils.css.CSSStyleDeclaration(cssText=body))
+            finally:
+                cssutils.log.raiseExceptions = True
+            out['at_asif'] = _replace_margin_items(_orig(sheet, tight)[1], sheet, path, tuple(items)) == r[2]
+        except Exception as e:  # noqa: BLE001 - no as-if DOM: the failure is not attributed
+            out['asif_error'] = '%s: %s' % (type(e).__name__, str(e)[:100])
+    return out
+
+
 def _k_margin_at(rec):
-    """malformed declaration inside a @page margin box that holds an at-keyword (anywhere); or a prefix that ends in an at-keyword which is not the name of a
-    margin box, behind a complete margin box of a @page rule"""
+    """malformed declaration inside a @page margin box that holds an at-keyword, where EITHER the damaged DOM is exactly the DOM of the damaged text with
+    every chunk 'at-keyword ... next ; or }' cut out (symptom: the rest of the declaration merges with what follows; an unknown at-rule that is complete,
+    '@foo x;' or '@foo { x }', is contained and is not in the class) OR such a chunk runs into the '}' that closes the margin box (at-keyword without a
+    ';' in last place: the box loses its end); or a prefix that ends in an at-keyword which is not the name of a margin box, behind a complete margin box
+    of a @page rule"""
     if rec['inputs'].get('mode') == 'trunc':
         import re
         m = re.search(r'@page[^{}]*\{.*\}\s*(@[-\w]*)$', rec['inputs']['text'], re.S)
         return bool(m) and m.group(1).lower() not in MARGIN_NAMES and rec['inputs']['full'][len(rec['inputs']['text']):].split('{')[0].strip(' -abcdefghijklmnopqrstuvwxyz') == ''
-    return _in_margin(rec) and any(t.startswith('@') for k, t, d in _garbage_tokens(rec) if k == 'atom')
+    mm = rec['inputs'].get('margin_model')
+    return _in_margin(rec) and bool(mm) and mm['chunks'] > 0 and (mm['at_asif'] or mm['unterminated'])
 
 
 def _k_margin_brace(rec):
-    """malformed declaration inside a @page margin box that holds a {} block (anywhere)"""
-    return _in_margin(rec) and any(t == '{' for k, t, d in _garbage_tokens(rec) if k == 'open')
+    """malformed declaration inside a @page margin box with a '}' in it that is NOT the end of an 'at-keyword ... ; or }' chunk (a {} block in the
+    declaration; the second '}' of an at-rule with a nested block): the margin box ends there, before its own '}'"""
+    mm = rec['inputs'].get('margin_model')
+    return _in_margin(rec) and bool(mm) and mm['early_end']
 
 
 def _k_function_first_statement(rec):
